@@ -676,6 +676,8 @@ def _linop_loss_build(case):
     cplx, shape = case["cplx"], tuple(case["shape"])
     dt = np.complex128 if cplx else np.float64
     k = case["op"]
+    if k == "dft":
+        dt = np.complex64
     if k == "convolve":
         h = snp.array(np.asarray(G.dec(case["h"], tuple(case["hshape"]), cplx), dtype=dt))
         A = linop.Convolve(h=h, input_shape=shape, input_dtype=dt, mode=case["mode"])
@@ -684,6 +686,8 @@ def _linop_loss_build(case):
         A = linop.CircularConvolve(h=h, input_shape=shape, input_dtype=dt)
     elif k == "fd":
         A = linop.FiniteDifference(shape, input_dtype=dt, circular=case["circular"], append=None if case["circular"] else 0)
+    elif k == "dft":
+        A = linop.DFT(shape)  # DFT fixes its dtypes to complex64: binary32 data, tolerance 1e-4
     else:
         raise common.Infra(f"unknown operator kind {k}")
     oshape = A.output_shape
@@ -705,30 +709,32 @@ def linop_loss_oracle(case):
     common.setup_scico()
     f, A, _ = _linop_loss_build(case)
     shape, cplx = tuple(case["shape"]), case["cplx"]
-    dt = np.complex128 if cplx else np.float64
+    single = case["op"] == "dft"
+    dt = np.complex64 if single else (np.complex128 if cplx else np.float64)
     X = snp.array(np.asarray(G.dec(case["x"], shape, cplx), dtype=dt))
     g = np.asarray(f.grad(X))
     rr = np.random.Generator(np.random.PCG64(23))
     for _ in range(4):
         d = np.asarray(G.dy(rr, shape, cplx), dtype=dt)
-        fd = fd_directional(f, X, snp.array(d))
+        fd = fd_directional(f, X, snp.array(d), 2.0**-3 if single else 2.0**-9)
         ri = float(np.real(np.sum(np.conj(g) * d)))
-        if abs(fd - ri) > 1e-5 * (1 + abs(fd) + abs(float(f(X)))):
+        if abs(fd - ri) > (2e-2 if single else 1e-5) * (1 + abs(fd) + abs(float(f(X)))):
             return {"x": case["x"], "d": G.enc(d), "re_inner_grad_d": ri, "finite_difference": fd}
     return None
 
 
 def stream_linop_loss(ctx, model):
-    """losses composed with scico's own linear operators (Convolve, CircularConvolve, FiniteDifference): the dense
+    """losses composed with scico's own linear operators (Convolve, CircularConvolve, FiniteDifference, DFT at complex64): the dense
     matrix of the operator (extracted on the basis) goes to the model; value, gradient (= 2 s A^H W (Ax - y) for the
     squared loss) and Hessian of the real objects vs the model"""
     import scico.numpy as snp
 
     rng = ctx.rng
     for _ in range(ctx.n(14, 120)):
-        opk = ["convolve", "circconv", "fd"][int(rng.integers(3))]
-        cplx = bool(rng.random() < 0.5)
-        dt = np.complex128 if cplx else np.float64
+        opk = ["convolve", "circconv", "fd", "dft"][int(rng.integers(4))]
+        cplx = True if opk == "dft" else bool(rng.random() < 0.5)
+        dt = np.complex64 if opk == "dft" else (np.complex128 if cplx else np.float64)
+        rt = 1e-4 if opk == "dft" else 1e-9
         shape = (int(rng.integers(2, 5)),) if rng.random() < 0.5 else (int(rng.integers(2, 4)), int(rng.integers(2, 4)))
         case = {"tag": "linop_loss", "op": opk, "cplx": cplx, "shape": list(shape), "s": G.dyscalar(rng),
                 "loss": ["sqL2", "sqL2", "huber", "gen_sqL2"][int(rng.integers(4))],
@@ -770,26 +776,80 @@ def stream_linop_loss(ctx, model):
             t = {"k": "loss", "s": seff, "op": opr, "y": G.enc(yv),
                  "f": {"k": "huber", "delta": 1.0, "sep": True} if case["loss"] == "huber" else {"k": "sqL2"}}
         mk, mb = G.margin(t, x)
-        if 0.0 < mb < 1e-6:
+        if 0.0 < mb < (1e-2 if opk == "dft" else 1e-6):
             continue
         case["x"] = G.enc(x)
         got = model.call("fn", n=n, x=G.cv(x), f=G.to_model(t, n))
         X = snp.array(np.asarray(x if cplx else x.real, dtype=dt).reshape(shape))
         ctx.case({k_: v for k_, v in case.items() if k_ not in ("x", "y", "h")}, ("linop_loss", opk, cplx, tuple(shape), case["loss"], case["c"] is not None, case.get("mode")))
         ctx.count(f"linop_loss:{opk}:{case['loss']}")
-        if not common.close(float(f(X)), common.b2f(got["eval"]), TOLK):
+        if not common.close(float(f(X)), common.b2f(got["eval"]), TOLK, rt):
             ctx.disagree("linop_loss.eval", case, float(f(X)), common.b2f(got["eval"]), oracle=linop_loss_oracle)
             continue
         g = f.grad(X)
         if list(np.shape(g)) != list(shape) or np.asarray(g).dtype != dt:
             ctx.disagree("linop_loss.grad.shape", case, {"shape": list(np.shape(g)), "dtype": str(np.asarray(g).dtype)}, {"shape": list(shape), "dtype": str(np.dtype(dt))}, oracle=linop_loss_oracle)
             continue
-        if not _cmp_vec(ctx, "linop_loss.grad", case, g, G.from_cv(got["grad"]), linop_loss_oracle):
+        if not _cmp_vec(ctx, "linop_loss.grad", case, g, G.from_cv(got["grad"]), linop_loss_oracle, rt):
             continue
         if case["loss"] == "sqL2":
             goth = model.call("hess", n=n, m=m, s=f2b(seff), A=G.cmat(Am), w=[f2b(1.0)] * m, x=G.cv(x), y=G.cv(yv))
             H = f.hessian
-            _cmp_vec(ctx, "linop_loss.hessian", case, H(X), G.from_cv(goth["apply"]), linop_loss_oracle)
+            _cmp_vec(ctx, "linop_loss.hessian", case, H(X), G.from_cv(goth["apply"]), linop_loss_oracle, rt)
+
+
+def stream_kinks(ctx, model):
+    """L1Norm at points WITH zero coordinates (no gradient exists there): what `grad` returns must be a sub-gradient
+    (theorem C07_l1_kink_subgradient): entries x_i/|x_i| where x_i != 0 (= the model), modulus <= 1 where x_i = 0
+    (JAX: 0 for complex arrays = the model's value, 1 for real arrays), and the sub-gradient inequality itself on
+    random z.  Also c*L1Norm (c > 0) and L1Norm inside a Loss with identity operator (kink at x = y)."""
+    import scico.numpy as snp
+    from scico import functional, loss
+
+    rng = ctx.rng
+    for _ in range(ctx.n(12, 100)):
+        cplx = bool(rng.random() < 0.5)
+        dt = np.complex128 if cplx else np.float64
+        n = int(rng.integers(1, 6))
+        x = G.dy(rng, (n,), cplx, nz=True)
+        zi = [i for i in range(n) if rng.random() < 0.5] or [int(rng.integers(n))]
+        for i in zi:
+            x[i] = 0.0
+        variant = int(rng.integers(3))
+        c = G.dyscalar(rng, True)
+        y = G.dy(rng, (n,), cplx)
+        if variant == 0:
+            f, scale, shift = functional.L1Norm(), 1.0, np.zeros(n)
+        elif variant == 1:
+            f, scale, shift = c * functional.L1Norm(), c, np.zeros(n)
+        else:
+            f, scale, shift = loss.Loss(y=snp.array(np.asarray(y if cplx else y.real, dtype=dt)), f=functional.L1Norm(), scale=c), c, (y if cplx else y.real)
+        xa = x + shift  # the kink of the loss is at x = y
+        X = snp.array(np.asarray(xa if cplx else np.real(xa), dtype=dt))
+        g = np.asarray(f.grad(X)).ravel().astype(np.complex128)
+        got = model.call("fn", n=n, x=G.cv(x), f={"k": "l1"})
+        mg = scale * G.from_cv(got["grad"])
+        case = {"variant": variant, "cplx": cplx, "x": G.enc(xa), "scale": scale, "zero_coordinates": zi}
+        ctx.case({"tag": "kinks", "variant": variant, "cplx": cplx, "n": n, "zeros": len(zi)}, ("kinks", variant, cplx, n, len(zi)))
+        ctx.count(f"kinks:{'complex' if cplx else 'real'}:variant={variant}")
+        nz = [i for i in range(n) if i not in zi]
+        bad = None
+        if nz and not (common.allclose(g[nz].real, mg[nz].real, TOLK) and common.allclose(g[nz].imag, mg[nz].imag, TOLK)):
+            bad = {"what": "entries at non-zero coordinates differ from x_i/|x_i|", "grad": G.enc(g), "model": G.enc(mg)}
+        elif np.any(np.isnan(g)) or np.any(np.abs(g[zi]) > scale * (1 + 1e-12)):
+            bad = {"what": "entry at a zero coordinate is not in the unit disc (not a sub-gradient)", "grad": G.enc(g)}
+        elif cplx and np.any(g[zi] != 0):
+            ctx.count("kinks:complex-zero-entry-nonzero")  # allowed by the theorem; JAX's convention today is 0
+        if bad is None:
+            for _ in range(4):
+                z = G.dy(rng, (n,), cplx)
+                Z = snp.array(np.asarray(z if cplx else z.real, dtype=dt))
+                lhs = float(f(X)) + float(np.real(np.sum(np.conj(g) * (np.asarray(Z).ravel() - np.asarray(X).ravel()))))
+                if lhs > float(f(Z)) + 1e-9 * (1 + abs(lhs)):
+                    bad = {"what": "sub-gradient inequality f(z) >= f(x) + Re<g, z-x> fails", "z": G.enc(z), "f(x)+Re<g,z-x>": lhs, "f(z)": float(f(Z))}
+                    break
+        if bad is not None:
+            ctx.disagree("kinks.l1.subgradient", case, bad, "C07_l1_kink_subgradient", oracle=lambda c_, bad=bad: dict(bad, x=c_["x"]))
 
 
 def stream_div_reject(ctx, model):
@@ -909,9 +969,9 @@ def _build_operator(case):
     return F, G.dec(case["u"], (n,)), G.dec(case["v"], (n,)), G.dec(case["w"], (m,)), cplx
 
 
-def _cmp_vec(ctx, op, case, impl, mod, oracle=None):
+def _cmp_vec(ctx, op, case, impl, mod, oracle=None, rtol=1e-9):
     impl = np.asarray(impl, dtype=np.complex128).ravel()
-    if impl.shape != mod.shape or not (common.allclose(impl.real, mod.real, TOLK) and common.allclose(impl.imag, mod.imag, TOLK)):
+    if impl.shape != mod.shape or not (common.allclose(impl.real, mod.real, TOLK, rtol) and common.allclose(impl.imag, mod.imag, TOLK, rtol)):
         ctx.disagree(op, case, G.enc(impl), G.enc(mod), oracle=oracle)
         return False
     return True
@@ -1403,9 +1463,11 @@ def _loss_factory(kind, rng, n, cplx):
 HEAP_KINDS = ["SquaredL2Loss", "Loss+L1", "Loss+Huber", "SquaredL2SquaredAbsLoss", "SquaredL2AbsLoss", "PoissonLoss"]
 
 
-def run_history(mk, ops):
-    """replay a history on real objects (`touch` = take `obj.hessian` and apply it once: no effect
-    on the model, which has no cache)"""
+def run_history(mk, ops, handles=None, grab_all=False):
+    """replay a history on real objects (`touch` = take `obj.hessian`: no effect on the model, which has no cache).
+    If `handles` is a list, every Hessian operator taken is KEPT there as (object index, operator) so that it can
+    be applied after the rest of the history (`Heap.hessHandleApply`); `grab_all`: also take one from every
+    object right after it is created."""
     objs = []
     for op in ops:
         k = op["k"]
@@ -1413,7 +1475,9 @@ def run_history(mk, ops):
             o = objs[op["obj"]]
             if hasattr(o, "hessian"):
                 try:
-                    _ = o.hessian
+                    H = o.hessian
+                    if handles is not None:
+                        handles.append((op["obj"], H))
                 except NotImplementedError:
                     pass
         elif k == "new":
@@ -1424,6 +1488,11 @@ def run_history(mk, ops):
             objs.append(objs[op["obj"]] / op["c"])
         elif k == "set":
             objs[op["obj"]].set_scale(op["s"])
+        if grab_all and handles is not None and k in ("new", "mul", "div") and hasattr(objs[-1], "hessian"):
+            try:
+                handles.append((len(objs) - 1, objs[-1].hessian))
+            except NotImplementedError:
+                pass
     return objs
 
 
@@ -1435,7 +1504,8 @@ def heap_oracle_factory(kind, seed_state):
         rng = np.random.Generator(np.random.PCG64(case["factory_seed"]))
         cplx, n = case["cplx"], case["n"]
         mk = _loss_factory(case["kind"], rng, n, cplx)
-        objs = run_history(mk, case["ops"])
+        handles = []
+        objs = run_history(mk, case["ops"], handles, grab_all=bool(case.get("grab_all")))
         dt = np.complex128 if cplx else np.float64
         x = G.dec(case["x"], (n,), cplx)
         X = snp.array(np.asarray(x, dtype=dt))
@@ -1455,9 +1525,35 @@ def heap_oracle_factory(kind, seed_state):
                     hd = re_inner(o.hessian(Dd), Dd)
                     if abs(sd - hd) > 1e-7 * (1 + abs(hd)):
                         return {"object": i, "scale": float(o.scale), "x": G.enc(x), "d": G.enc(d), "second_difference": sd, "Re<Hd,d>": hd}
+        if case["kind"] == "SquaredL2Loss":
+            for oi, H in handles:
+                o = objs[oi]
+                d = G.dy(rr, (n,), cplx)
+                Dd = snp.array(np.asarray(d, dtype=dt))
+                h = 2.0**-4
+                sd = (float(o(X + h * Dd)) - 2 * float(o(X)) + float(o(X - h * Dd))) / (h * h)
+                hd = re_inner(H(Dd), Dd)
+                if abs(sd - hd) > 1e-7 * (1 + abs(hd)):
+                    return {"object": oi, "current_scale": float(o.scale), "hessian_operator": "taken earlier in the history, applied now",
+                            "x": G.enc(x), "d": G.enc(d), "second_difference_of_object_now": sd, "Re<Hd,d>": hd}
         return None
 
     return oracle
+
+
+def _check_handles(ctx, case, handles, got, unit, X, orc):
+    """Hessian operators taken DURING the history and applied now: each applies 2 * (current scale of the object it
+    came from) * A^H W A  (`Heap.hessHandleApply`, theorem C07_hessian_handle)"""
+    base = np.asarray(unit.hessian(X)).ravel().astype(np.complex128)
+    for oi, H in handles:
+        se = common.b2f(got["eval"][oi])
+        hx = np.asarray(H(X)).ravel().astype(np.complex128)
+        ha = np.asarray(H.adj(X)).ravel().astype(np.complex128)
+        ctx.count("heap:kept-hessian-handles")
+        for nm, v in (("heap.hessian_handle", hx), ("heap.hessian_handle.adj", ha)):
+            if not (common.allclose(v.real, (se * base).real, TOLK) and common.allclose(v.imag, (se * base).imag, TOLK)):
+                ctx.disagree(nm, case, {"object": oi, "H(x)": G.enc(v)}, {"current_scale": se, "H(x)": G.enc(se * base)}, oracle=orc)
+                return
 
 
 def stream_heap(ctx, model):
@@ -1506,7 +1602,8 @@ def stream_heap(ctx, model):
         else:
             x = G.dy(rng, (n,), cplx, nz=True)
         X = snp.array(np.asarray(x, dtype=dt))
-        objs = run_history(mk, ops)
+        handles = []
+        objs = run_history(mk, ops, handles)
         unit = mk(1.0)
         base_val = float(unit(X))
         base_grad = np.asarray(unit.grad(X)).ravel().astype(np.complex128)
@@ -1537,6 +1634,8 @@ def stream_heap(ctx, model):
                 if not (common.allclose(hx.real, wanth.real, TOLK) and common.allclose(hx.imag, wanth.imag, TOLK)):
                     ctx.disagree("heap.hessian", case, {"object": i, "hessian(x)": G.enc(hx)}, {"scale": se, "hessian(x)": G.enc(wanth)}, oracle=orc)
                     break
+        if kind == "SquaredL2Loss":
+            _check_handles(ctx, case, handles, got, unit, X, orc)
 
 
 def _heap_histories(depth):
@@ -1586,8 +1685,9 @@ def stream_heap_exhaustive(ctx, model):
                 o["obj"] = op["obj"]
             mops.append(o)
         got = model.call("heap", ops=mops)
-        objs = run_history(mk, ops)
-        case = {"kind": "SquaredL2Loss", "cplx": cplx, "n": n, "factory_seed": fseed, "ops": ops, "x": G.enc(x)}
+        handles = []
+        objs = run_history(mk, ops, handles, grab_all=True)
+        case = {"kind": "SquaredL2Loss", "cplx": cplx, "n": n, "factory_seed": fseed, "ops": ops, "x": G.enc(x), "grab_all": True}
         ctx.case({"tag": "heap_exhaustive", "ops": [o["k"] for o in ops]}, ("heapx", tuple((o["k"], o.get("obj"), o.get("side")) for o in ops)))
         ctx.count("heapx:histories")
         if len(objs) != len(got["eval"]):
@@ -1608,6 +1708,8 @@ def stream_heap_exhaustive(ctx, model):
             if bad:
                 ctx.disagree(bad[0], case, bad[1], bad[2], oracle=orc)
                 break
+        else:
+            _check_handles(ctx, case, handles, got, unit, X, orc)
     ctx.extra.setdefault("exhaustive_scopes", {})["loss copy/re-bind machine"] = (
         f"all {len(hs)} histories new;op1..opk, k<={depth}, ops in {{new, c*obj, obj*c, obj/c, set_scale}} x every object")
     ctx.extra["exhaustive_scopes"]["Function/cvjp argument slots"] = "all (index, arity) with arity <= 4"
@@ -2083,7 +2185,7 @@ def correspond(ctx, model):
 
     common.setup_scico()
     warnings.filterwarnings("ignore", message="Casting complex values to real")
-    for stream in (run_corpus, stream_boundary, stream_l21, stream_tv, stream_setdist, stream_linop_loss, stream_fn, stream_blocks, stream_single, stream_real_arg,
+    for stream in (run_corpus, stream_boundary, stream_l21, stream_tv, stream_setdist, stream_linop_loss, stream_kinks, stream_fn, stream_blocks, stream_single, stream_real_arg,
                    stream_div_reject, stream_jac, stream_jac_block, stream_jac_mixed, stream_function, stream_hess, stream_heap, stream_heap_exhaustive, stream_autograd_api, stream_api_table, stream_linadj2):
         _guard(ctx, model, stream)
 
